@@ -259,15 +259,58 @@ package ugo
 //@ modifies vm.sp, vm.ip, vm.stack, vm.curFrame.errHandlers.handlers, vm.curFrame.errHandlers.handlers[*]
 //@ property C03
 
-// throw is not verified yet: callers may only rely on the frame below
-// (everything else they need must hold on paths that do not call it).
+// Delivery of a thrown error (C03) and totality of the recovery path (C06).
+// The error is delivered in the frame that becomes (or is) the current one:
+// handleThrownError is only ever entered for the current frame, so when the
+// innermost handler of that frame is already used up (an error coming out of
+// a call made inside a finally block) the re-throw searches the remaining
+// handlers of the same frame first. None of these functions panics in any VM
+// state satisfying vmThrowOK - the stack pointer and the frame index may be at
+// their limits.
 //@ func (*VM).throw
 //@ params vm err noTrace
 //@ results r
-//@ requires vm != nil
-//@ modifies vm.sp, vm.ip, vm.stack, vm.curFrame, vm.frameIndex, vm.curInsts, vm.constants
-//@ trusted
-//@ property C03
+//@ requires vmThrowOK(vm) && err != nil
+//@ ensures[handled] r == nil ==> vmPanicPoint(vm)
+//@ ensures[pending] r == nil ==> specPendingErr(vm) == err
+//@ ensures[unhandled] r != nil ==> r == error(err)
+//@ loop 0 invariant -1 <= index && index <= old(vm.frameIndex)-2 && frame == nil && vm.curFrame == old(vm.curFrame) && vm.frameIndex == old(vm.frameIndex) && vm.sp == old(vm.sp)
+//@ loop 0 invariant[parentfn] forall j int :: 0 <= j && j <= index ==> vm.frames[j].fn != nil
+//@ loop 0 invariant[parenth] forall j int :: 0 <= j && j <= index ==> specHSane(vm.frames[j].errHandlers)
+//@ split returns
+//@ modifies *
+//@ property C03 C06
+
+//@ func (*VM).handleThrownError
+//@ params vm frame err
+//@ results r
+//@ requires vmThrowOK(vm) && err != nil && frame == vm.curFrame && frame.errHandlers != nil && len(frame.errHandlers.handlers) >= 1
+//@ ensures[handled] r == nil ==> vmPanicPoint(vm)
+//@ ensures[pending] r == nil ==> specPendingErr(vm) == err
+//@ ensures[unhandled] r != nil ==> r == error(err)
+//@ loop 0 invariant i <= vm.sp && vm.sp == old(vm.sp) && vm.curFrame == old(vm.curFrame) && vm.frameIndex == old(vm.frameIndex)
+//@ split returns
+//@ modifies *
+//@ property C03 C06
+
+//@ func (*VM).throwGenErr
+//@ params vm err
+//@ results r
+//@ requires vmThrowOK(vm) && specErrWellFormed(err)
+//@ ensures[handled] r == nil ==> vmPanicPoint(vm)
+//@ split returns
+//@ modifies *
+//@ property C06
+
+// With recovery enabled the deferred handler of run() calls handlePanic
+// outside any recover: it must not panic itself, wherever the panic struck.
+//@ func (*VM).handlePanic
+//@ params vm r
+//@ requires vmPanicPoint(vm)
+//@ ensures[decided] vm.err != nil || vmPanicPoint(vm)
+//@ split returns
+//@ modifies *
+//@ property C06
 
 // ---------------------------------------------------------------------------
 // C05 / C11: instruction encoding is exact: an instruction is produced iff
